@@ -315,6 +315,9 @@ class NetWorld(World):
         m = self.model.get(s)
         if m is None:
             return {"op": "new_net", "s": s}
+        q = getattr(self, "pendq", {}).get(s)
+        if q:
+            return q.pop(0)
         if not m["edges"]:
             return self._g_add_edge(r, s, m)
         fam = _wchoice(r, [(k, w) for k, w in self.cfg["fam"].items() if w])
@@ -352,9 +355,20 @@ class NetWorld(World):
                         "h": r.choice([2.0, 0.5, 4.0]), "twice": r.random() < 0.5, "e": r.randrange(64),
                         "resurvey": r.random() < 0.7}
             if r.random() < self.cfg.get("subnet", 0):
-                return {"op": "sub_network", "s": s, "a": r.randrange(64), "cut": self._gen_cut(r, m),
-                        "mode": r.choice(["TOPOLOGIC", "TOPOLOGIC", "GEOMETRIC"]),
-                        "to": (s + 1) % self.cfg["sessions"] if (self.cfg["sessions"] > 1 and r.random() < 0.5) else None}
+                st = {"op": "sub_network", "s": s, "a": r.randrange(64), "cut": self._gen_cut(r, m),
+                      "mode": r.choice(["TOPOLOGIC", "TOPOLOGIC", "GEOMETRIC"]),
+                      "to": (s + 1) % self.cfg["sessions"] if (self.cfg["sessions"] > 1 and r.random() < 0.5) else None}
+                if st["to"] is not None and self.cfg["road"] and r.random() < 0.6:
+                    # the owner of the extract generalises it and recomputes the abscissas; the owner of
+                    # the full network (whose common edges changed with it) recomputes his
+                    if not hasattr(self, "pendq"):
+                        self.pendq = {}
+                    st["cut"] = 1e300
+                    self.pendq.setdefault(st["to"], []).extend([
+                        {"op": "simplify", "s": st["to"], "tol": r.choice([0.5, 2.0])},
+                        {"op": "abs_again", "s": st["to"], "twice": False}])
+                    self.pendq.setdefault(s, []).append({"op": "abs_again", "s": s, "twice": False})
+                return st
             if r.random() < self.cfg["reload"]:
                 st = {"op": "reload", "s": s, "sep": r.choice([",", ";"])}
                 if r.random() < self.cfg["fault_rate"]:
